@@ -234,7 +234,9 @@ EvalMany(w, txs) ==
   IF txs = <<>> THEN <<>>
   ELSE LET tx == Head(txs)
            o == Outcome(w, tx, [status |-> 1, logs |-> <<>>, created |-> NULL])
-       IN  <<[ok |-> o.status = 1, out |-> CallOut(w, tx)]>> \o EvalMany(o.world, Tail(txs))
+       IN  IF Code(w, tx.from) \notin {"none", "empty"}
+           THEN <<[ok |-> FALSE, out |-> "empty"]>> \o EvalMany(w, Tail(txs))       \* rejected before execution: a sender with code
+           ELSE <<[ok |-> o.status = 1, out |-> CallOut(w, tx)]>> \o EvalMany(o.world, Tail(txs))
 
 (* is the observed receipt one the machine allows? *)
 SeenOk(w, tx, seen) ==
